@@ -325,11 +325,13 @@ func paillierNInst(bits int) *niInst {
 		return nil
 	}
 	n.prove = func(_ compiler.Name, ctx *session.Context, inst int, _ string) ([]byte, error) {
+		// pailliern's verifier is one call (no construct/use split), so "after construction" cannot be expressed on that
+		// side; for both sides the late append therefore happens before the protocol touches the transcript
+		runLate(ctx)
 		pr, err := pailliern.NewProver(ctx.SessionID(), keys[inst], ctx.Transcript())
 		if err != nil {
 			return nil, err
 		}
-		runLate(ctx)
 		proof, _, err := pr.Prove()
 		if err != nil {
 			return nil, err
